@@ -252,6 +252,13 @@ class MDAQuasiNewton(BaseMDARoot):
 
         self._update_local_data_from_array(y_opt.x)
 
+        # The last evaluation of the residuals by the root-finding algorithm
+        # is not necessarily done at the solution
+        # (e.g. finite-difference perturbation, rejected trial step):
+        # execute the disciplines at the solution
+        # so that all the outputs are consistent with the coupling variables.
+        self._execute_disciplines_and_update_local_data()
+
         if self.settings.method in self._METHODS_SUPPORTING_CALLBACKS:
             self.io.update_output_data({
                 self.NORMALIZED_RESIDUAL_NORM: array([self.normed_residual]),
